@@ -10,3 +10,7 @@ for spec in fields:chk serial:chk serial:chkdbg hashes:chk merkle:chk polyfft:ch
   pkg=${spec%%:*}; prof=${spec##*:}
   cargo build --offline --profile "$prof" -p "$pkg" 2>&1 | tail -1
 done
+# second workspace: the C14 scenario bodies on the real rayon (free-running complement)
+cd ../harness_real
+if [ ! -f Cargo.lock ]; then cp ../harness/Cargo.lock Cargo.lock; fi
+cargo build --offline --profile chk -p conc_real 2>&1 | tail -1
